@@ -23,6 +23,25 @@ impl<Req, Res, E> Inner<Req, Res, E> {
             !final(self).ready@, final(self).polls == old(self).polls,
             *final(tr) == (Trace { ev: old(tr).ev.push(Ev::InnerCall(req)), calls: old(tr).calls + 1, last_req: Some(req), reqs: old(tr).reqs.push(req), call_at: old(tr).ev.len(), ..*old(tr) }),
     { unimplemented!() }
+    /// poll_ready inside a hand-written future: as poll_ready, and a readiness ERROR is recorded in the trace
+    #[verifier::external_body]
+    pub fn poll_ready_tr(&mut self, cx: &mut Context, Tracked(tr): Tracked<&mut Trace<Req, Res, E>>) -> (r: Poll<Result<(), E>>)
+        ensures (r matches Poll::Ready(Ok(_))) ==> final(self).ready@,
+                !(r matches Poll::Ready(Ok(_))) ==> final(self).ready@ == old(self).ready@,
+                final(self).polls@ == old(self).polls@ + 1,
+                r matches Poll::Ready(Err(e)) ==> *final(tr) == (Trace { ready_err: Some(e), ..*old(tr) }),
+                !(r matches Poll::Ready(Err(_))) ==> *final(tr) == *old(tr),
+    { unimplemented!() }
+    /// `poll_fn(|cx| s.poll_ready(cx)).await` (or `ServiceExt::ready`): drives THIS instance to readiness — an await of unbounded
+    /// length — or yields the readiness error
+    #[verifier::external_body]
+    pub fn vx_ready(&mut self, Tracked(tr): Tracked<&mut Trace<Req, Res, E>>) -> (r: Result<(), E>)
+        requires old(tr).unguarded == 0,   // #no_unguarded_duty_at_await @LEDGER_TAGS@
+        ensures
+            r is Ok ==> final(self).ready@ && *final(tr) == (Trace { blocked: old(tr).blocked + 1, ..*old(tr) }),
+            r matches Err(e) ==> *final(tr) == (Trace { blocked: old(tr).blocked + 1, ready_err: Some(e), ..*old(tr) }),
+            final(self).polls@ >= old(self).polls@,
+    { unimplemented!() }
     /// tower::ServiceExt::oneshot: drives THIS instance to readiness (an await of unbounded length) and then calls it
     #[verifier::external_body]
     pub fn oneshot(self, req: Req, Tracked(tr): Tracked<&mut Trace<Req, Res, E>>) -> (f: OneshotFut<Req, Res, E>)
